@@ -30,6 +30,13 @@ constexpr size_t kN = ::dbgroup::thread::kMaxThreadNum;
  * allocation accounting (C20, C17 classification)
  *############################################################################*/
 std::atomic<int64_t> g_aligned_live{0};   // live over-aligned allocations (= ProtectedNode)
+// per-manager attribution for the sequential (model) histories: the controller sets tl_cur_mgr around the
+// constructor / ForwardGlobalEpoch / destructor of a manager; list nodes are only allocated and freed inside those
+thread_local int tl_cur_mgr = -1;
+constexpr int kMgrTab = 256;
+std::atomic<uint64_t> g_mgr_node_addr[kMgrTab];
+std::atomic<int> g_mgr_node_owner[kMgrTab];
+std::atomic<int64_t> g_mgr_nodes[2];
 std::atomic<uint64_t> g_aligned_total{0};
 std::atomic<int64_t> g_bytes_live{0};     // live bytes of ordinary allocations made while tracking
 thread_local int tl_track_bytes = 0;
@@ -59,16 +66,41 @@ operator new(std::size_t n, std::align_val_t al)
   if (posix_memalign(&p, static_cast<size_t>(al), n ? n : 1) != 0) abort();
   vf::g_aligned_live.fetch_add(1, vf::kRlx);
   vf::g_aligned_total.fetch_add(1, vf::kRlx);
+  if (vf::tl_cur_mgr >= 0) {
+    for (int k = 0; k < vf::kMgrTab; ++k) {
+      uint64_t z = 0;
+      if (vf::g_mgr_node_addr[k].compare_exchange_strong(z, reinterpret_cast<uint64_t>(p), vf::kRlx)) {
+        vf::g_mgr_node_owner[k].store(vf::tl_cur_mgr, vf::kRlx);
+        vf::g_mgr_nodes[vf::tl_cur_mgr].fetch_add(1, vf::kRlx);
+        break;
+      }
+    }
+  }
   const auto i = vf::g_node_ring_pos.fetch_add(1, vf::kRlx) % vf::kNodeRing;
   vf::g_node_sz[i].store(n, vf::kRlx);
   vf::g_node_lo[i].store(reinterpret_cast<uint64_t>(p), vf::kRlx);
   return p;
 }
+namespace vf
+{
+inline void
+MgrNodeFreed(void *p)
+{
+  for (int k = 0; k < kMgrTab; ++k) {
+    if (g_mgr_node_addr[k].load(kRlx) == reinterpret_cast<uint64_t>(p)) {
+      g_mgr_nodes[g_mgr_node_owner[k].load(kRlx)].fetch_sub(1, kRlx);
+      g_mgr_node_addr[k].store(0, kRlx);
+      return;
+    }
+  }
+}
+}  // namespace vf
 void
 operator delete(void *p, std::align_val_t) noexcept
 {
   if (p == nullptr) return;
   vf::g_aligned_live.fetch_sub(1, vf::kRlx);
+  vf::MgrNodeFreed(p);
   free(p);
 }
 void
@@ -76,6 +108,7 @@ operator delete(void *p, std::size_t, std::align_val_t) noexcept
 {
   if (p == nullptr) return;
   vf::g_aligned_live.fetch_sub(1, vf::kRlx);
+  vf::MgrNodeFreed(p);
   free(p);
 }
 
@@ -1093,7 +1126,12 @@ Run()
   std::set<std::string> sigs;
   for (uint64_t h = 0; h < histories; ++h) {
     const auto base_nodes = g_aligned_live.load();
-    EpochManager *em[2] = {new (g_em_storage[0]) EpochManager{}, new (g_em_storage[1]) EpochManager{}};
+    EpochManager *em[2] = {nullptr, nullptr};
+    for (int m = 0; m < 2; ++m) {
+      tl_cur_mgr = m;
+      em[m] = new (g_em_storage[m]) EpochManager{};
+      tl_cur_mgr = -1;
+    }
     managers += 2;
     const size_t nw = kN <= 1 ? 0 : 1 + r.Below(std::min<size_t>(kN - 1, 12));
     std::vector<std::unique_ptr<WorkerCtl>> ws;
@@ -1113,7 +1151,9 @@ Run()
     for (uint64_t s = 0; s < steps && !stop; ++s) {
       if (r.Below(100) < p_forward || nw == 0) {
         const int m = (two_managers && r.Chance(1, 4)) ? 1 : 0;
+        tl_cur_mgr = m;
         em[m]->ForwardGlobalEpoch();
+        tl_cur_mgr = -1;
         ++cur[m];
         ++total_forwards;
         if ((cur[m] & 255) == 0) ++boundaries;
@@ -1155,22 +1195,17 @@ Run()
           }
           stop = true;
         }
-        // memory bound: nodes <= distinct 256-ranges of the lists + 2 per manager
-        std::set<std::pair<int, size_t>> ranges;
-        for (int mm = 0; mm < 2; ++mm) {
-          ranges.insert({mm, cur[mm] >> 8});
-          ranges.insert({mm, (cur[mm] - 1) >> 8});
-        }
-        for (auto &w : ws) {
-          if (w->mgr >= 0) ranges.insert({w->mgr, w->pinned >> 8});
-        }
-        const auto nodes = static_cast<uint64_t>(g_aligned_live.load() - base_nodes);
+        // memory bound (for the manager that was just forwarded; the other one retires nodes at its own next
+        // forward): nodes <= distinct 256-ranges of its list + 2 (the never-retired first node and one spare)
+        std::set<size_t> ranges;
+        for (auto v : exp) ranges.insert(v >> 8);
+        const auto nodes = static_cast<uint64_t>(g_mgr_nodes[m].load());
         max_nodes = std::max(max_nodes, nodes);
-        if (nodes > ranges.size() + 4) {
+        if (nodes > ranges.size() + 2) {
           Violate("C20", "more-list-nodes-alive-than-protected-ranges-plus-constant",
-                  Fmt("capacity=%zu history %" PRIu64 " epochs %" PRIu64 "/%" PRIu64 ": %" PRIu64 " list nodes are allocated but the lists of both "
-                      "managers cover only %zu distinct 256-epoch ranges",
-                      kN, h, cur[0], cur[1], nodes, ranges.size()));
+                  Fmt("capacity=%zu history %" PRIu64 " manager %d epoch %" PRIu64 ": %" PRIu64 " list nodes of this manager are allocated right after "
+                      "its ForwardGlobalEpoch, but its list covers only %zu distinct 256-epoch ranges",
+                      kN, h, m, cur[m], nodes, ranges.size()));
           stop = true;
         }
         sigs.insert(Fmt("model:N=%zu:pins=%zu:ranges=%zu", kN, std::min<size_t>(exp.size() - 2, 4), std::min<size_t>(ranges.size(), 6)));
@@ -1217,7 +1252,9 @@ Run()
     if (!stop && r.Chance(1, 2)) {
       // C16: all guards are gone; one complete forward must leave exactly {cur, cur-1}
       for (int m = 0; m < 2; ++m) {
+        tl_cur_mgr = m;
         em[m]->ForwardGlobalEpoch();
+        tl_cur_mgr = -1;
         ++cur[m];
         auto &&[g, l] = em[m]->GetProtectedEpochs();
         if (l != std::vector<size_t>{cur[m], cur[m] - 1} || em[m]->GetMinEpoch() != cur[m] - 1) {
@@ -1231,8 +1268,11 @@ Run()
       Do(*w, 3);
       w->th.join();
     }
-    em[0]->~EpochManager();
-    em[1]->~EpochManager();
+    for (int m = 0; m < 2; ++m) {
+      tl_cur_mgr = m;
+      em[m]->~EpochManager();
+      tl_cur_mgr = -1;
+    }
     const auto left = g_aligned_live.load() - base_nodes;
     if (left != 0) {
       Violate("C20", "list-nodes-not-freed-by-destructor",
